@@ -191,6 +191,27 @@ func c14CheckLoaded(c *core.C, what string, d *deb.Deb, members []model.ArMember
 		if e.Size != int64(len(mm.Data)) {
 			c.Failf("%s: ArContent[%q].Size = %d, want %d", what, mm.Name, e.Size, len(mm.Data))
 		}
+		// IsTarfile / Tarfile on every member of the index
+		wantTar := strings.HasSuffix(mm.Name, ".tar") || strings.Contains(mm.Name, ".tar.")
+		if e.IsTarfile() != wantTar {
+			c.Failf("%s: ArContent[%q].IsTarfile() = %v", what, mm.Name, e.IsTarfile())
+		}
+		if !wantTar {
+			if _, _, err := e.Tarfile(); err == nil {
+				c.Failf("%s: ArContent[%q].Tarfile() succeeded on a member that is not a tarball", what, mm.Name)
+			}
+		} else if strings.HasPrefix(mm.Name, "control.") {
+			e.Data.Seek(0, 0)
+			if tr, cl, err := e.Tarfile(); err != nil {
+				c.Failf("%s: ArContent[%q].Tarfile(): %v", what, mm.Name, err)
+			} else {
+				got, lerr := listTar(tr)
+				if want := wantListing(m.ControlFiles); lerr != nil || fmt.Sprint(got) != fmt.Sprint(want) {
+					c.Failf("%s: the control tarball opened through ArContent lists %v (err %v), packaged %v", what, got, lerr, want)
+				}
+				cl.Close()
+			}
+		}
 		e.Data.Seek(0, 0)
 		b, err := io.ReadAll(e.Data)
 		if err != nil || !bytes.Equal(b, mm.Data) {
